@@ -1,3 +1,4 @@
 import Audit.Tool
 import FluteModel.Props.C07
+import FluteModel.Props.C07Link
 #audit_ns Flute.Props.C07
